@@ -19,6 +19,7 @@ import Driver.WavexRf64
 import Driver.Routes
 import Driver.World
 import Driver.Aiff
+import Driver.Small2
 import Driver.Ledger
 import Driver.Meta
 import Driver.Ieee
@@ -87,6 +88,7 @@ def main (args : List String) : IO UInt32 := do
   | "routes" :: rest => RoutesDriver.cmd rest
   | "world" :: rest => WorldDriver.cmd rest
   | "aiff" :: rest => Driver.Aiff.cmd rest
+  | "small2" :: rest => Driver.Small2.cmd rest
   | "ledger" :: _ => LedgerDriver.cmd
   | "meta" :: rest => do MetaCmd.run rest (← readLines)
   | "ieee" :: rest => Driver.Ieee.cmd rest
